@@ -292,6 +292,7 @@ func Check(env *core.Env, rep *core.Report) *core.Result {
 	// nested pipelines built from configuration files, through the binary
 	nestedBin := NestedBinCheck(env, rep, map[bool]int{false: 24, true: 400}[thorough])
 	CondChild(env, rep)
+	SlowScan(env, rep, map[bool]int{false: 25, true: 300}[thorough])
 	validated += nestedBin
 
 	// binding self-test: a corrupted trace must be rejected
